@@ -115,6 +115,14 @@ pub fn gen_scn(seed: u64, corpus: &[world::CorpusProgram]) -> Scn {
         tree.nodes.push(("linked.incn".into(), Node::Symlink("f0.incn".into())));
         faults.push("symlink-to-file".to_string());
     }
+    if r.chance(1, 6) {
+        // a link in a sub-directory whose (relative) target sits next to it and needs formatting
+        tree.file("links/real_target.incn", "def   behind_the_link( ) -> int:\n    return 1\n");
+        tree.nodes.push(("links/alias.incn".into(), Node::Symlink("real_target.incn".into())));
+        tree.file("links/deeper/other_target.incn", "def   deeper_target( ) -> int:\n    return 2\n");
+        tree.nodes.push(("links/up_alias.incn".into(), Node::Symlink("deeper/other_target.incn".into())));
+        faults.push("relative-symlink-in-subdir".to_string());
+    }
     let mut ops: Vec<String> = ["check", "diff", "fmt", "check", "fmt", "diff"].iter().map(|s| s.to_string()).collect();
     if r.chance(1, 6) && nfiles > 1 {
         // a file vanishes between two operations of the history
@@ -133,8 +141,12 @@ pub fn gen_scn(seed: u64, corpus: &[world::CorpusProgram]) -> Scn {
         // both read-only flags on one command line
         ops.insert(r.range(0, 2) as usize, "check+diff".to_string());
     }
-    let path_arg = match r.below(6) {
+    let path_arg = match r.below(9) {
         0 if tree.get("src/f0.incn").is_some() => "src".to_string(),
+        // other spellings of a path: trailing slash, leading ./, absolute (resolved by the runner), things that are not there
+        6 if tree.nodes.iter().any(|(p, _)| p.starts_with("src/")) => "src/".to_string(),
+        7 => "./".to_string(),
+        8 => r.pick(&["<ABS>", "no_such_dir", "notes.txt", "legacy.incan"]).to_string(),
         1 => tree.nodes.iter().find(|(p, n)| p.ends_with(".incn") && matches!(n, Node::File(_))).map(|(p, _)| p.clone()).unwrap_or(".".into()),
         _ => ".".to_string(),
     };
@@ -207,7 +219,7 @@ fn run_op(op: &str, scn: &Scn, root: &Path, scratch: &Path, fakebin: &Path, hash
         if diff {
             args.push("--diff".into());
         }
-        args.push(scn.path_arg.clone());
+        args.push(if scn.path_arg == "<ABS>" { root.to_string_lossy().to_string() } else { scn.path_arg.clone() });
         let env = world::cli_env(fakebin, Some(hash_seed), &[]);
         let r = world::run_proc(&world::cli_path(), &args, root, &env, 60_000);
         if let Some(e) = &r.spawn_error {
@@ -222,12 +234,13 @@ fn run_op(op: &str, scn: &Scn, root: &Path, scratch: &Path, fakebin: &Path, hash
         } else {
             None
         };
-        return OpOut { code: r.code.unwrap_or(-1), stdout: r.out_str(), stderr: r.err_str(), crashed };
+        let strip = format!("{}/", root.display());
+        return OpOut { code: r.code.unwrap_or(-1), stdout: r.out_str().replace(&strip, ""), stderr: r.err_str().replace(&strip, ""), crashed };
     }
     if let Err(e) = std::env::set_current_dir(root) {
         simcore::harness_error(&format!("chdir: {e}"));
     }
-    let path = scn.path_arg.clone();
+    let path = if scn.path_arg == "<ABS>" { root.to_string_lossy().to_string() } else { scn.path_arg.clone() };
     let cap = capture_begin(scratch);
     let r = par::instance_timeout(hash_seed, None, std::time::Duration::from_secs(60), move || {
         match incan::cli::commands::format_files(&path, check, diff) {
@@ -235,12 +248,15 @@ fn run_op(op: &str, scn: &Scn, root: &Path, scratch: &Path, fakebin: &Path, hash
             Err(e) => (e.exit_code.0, e.message),
         }
     });
-    let (o, mut e) = capture_end(cap);
+    let (o, e) = capture_end(cap);
     let _ = std::env::set_current_dir("/");
+    let strip = format!("{}/", root.display());
+    let o = o.replace(&strip, "");
+    let mut e = e.replace(&strip, "");
     match r {
         Ok((code, msg)) => {
             if !msg.is_empty() {
-                e.push_str(&msg);
+                e.push_str(&msg.replace(&strip, ""));
                 e.push('\n');
             }
             OpOut { code, stdout: o, stderr: e, crashed: None }
@@ -529,6 +545,20 @@ pub fn run_case(scn: &Scn, scratch: &Path, fakebin: &Path, hash_seed: u64) -> Ca
                         add(&mut out, "bad-whitespace-written", &format!("{kind}|{key}"), format!("{f} as rewritten by `incan fmt`: {kind} ({key})"));
                     }
                 }
+                // nothing may appear that was not there (a rewrite replaces bytes, it does not create paths)
+                for k in after.keys() {
+                    if !before.contains_key(k) {
+                        add(&mut out, "fmt-created-file", "", format!("`incan fmt {}` created {k}, which did not exist before", scn.path_arg));
+                    }
+                }
+                // a listed path that is a symbolic link rewrites the file it points to
+                let mut via_link: BTreeSet<String> = BTreeSet::new();
+                for f in &formatted {
+                    if let Some(Node::Symlink(t)) = scn.tree.get(f) {
+                        let dir = f.rsplit_once('/').map(|(d, _)| format!("{d}/")).unwrap_or_default();
+                        via_link.insert(format!("{dir}{t}"));
+                    }
+                }
                 // only listed files may change; unlisted files must be untouched
                 for (k, a) in &before {
                     if a.kind != 'f' {
@@ -536,7 +566,7 @@ pub fn run_case(scn: &Scn, scratch: &Path, fakebin: &Path, hash_seed: u64) -> Ca
                     }
                     if let Some(b) = after.get(k) {
                         let changed = a.hash != b.hash || a.len != b.len;
-                        if changed && !formatted.iter().any(|f| f == k) {
+                        if changed && !formatted.iter().any(|f| f == k) && !via_link.contains(k) {
                             add(&mut out, "fmt-changed-unlisted-file", "", format!("{k} changed during `incan fmt {}` but is not reported as formatted", scn.path_arg));
                         }
                         if changed && !(k.ends_with(".incn")) {
@@ -558,10 +588,22 @@ pub fn run_case(scn: &Scn, scratch: &Path, fakebin: &Path, hash_seed: u64) -> Ca
                     }
                 }
                 // I4: faults present => non-zero exit, healthy files still processed
-                let fault_in_scope = scn.path_arg == "." && scn.faults.iter().any(|f| ["unparsable", "non-utf8"].contains(&f.as_str()));
+                let fault_in_scope = [".", "./", "<ABS>"].contains(&scn.path_arg.as_str()) && scn.faults.iter().any(|f| ["unparsable", "non-utf8"].contains(&f.as_str()));
                 // (a directory that happens to be called `x.incn` is just a directory: it is walked, not an error)
                 if fault_in_scope && r.code == 0 {
                     add(&mut out, "fault-exit-zero", &scn.faults.join("+"), format!("`incan fmt .` exits 0 although the tree contains {:?}", scn.faults));
+                }
+                // the statement is about a *file*: `incan fmt --check <file>` right after `incan fmt` rewrote it, whatever path
+                // argument the rewriting run was given (read-only, so it does not disturb the history)
+                if !scn.subproc {
+                    for f in formatted.iter().take(3) {
+                        let mut single = scn.clone();
+                        single.path_arg = f.clone();
+                        let r1 = run_op("check", &single, &root, scratch, fakebin, hash_seed);
+                        if r1.crashed.is_none() && r1.code != 0 && !listed(&r1.stdout, "Would reformat: ").is_empty() {
+                            add(&mut out, "check-fails-after-fmt", "per-file-check-disagrees", format!("`incan fmt {}` rewrote {f}; `incan fmt --check {f}` right afterwards exits {}", scn.path_arg, r1.code));
+                        }
+                    }
                 }
                 rewritten = formatted.into_iter().collect();
                 let mut errored: BTreeSet<String> = BTreeSet::new();
